@@ -39,6 +39,7 @@ SIG = {
     "box": "ProjectBox|not-the-projection",
     "nonneg": "ProjectNonnegative|not-the-projection",
     "lm": "LM.solve|not-stationary",
+    "lm_nan": "LM.solve|stagnation-returns-nan",
     "minimize": "minimize.solve|result-altered",
     "minimize_nojac": "minimize.solve|derivative-free-method-raises-KeyError",
     "maximize": "maximize.solve|not-the-negated-problem",
@@ -603,6 +604,13 @@ def case_lm_conv(meta):
     with np.errstate(all="ignore"):
         x, info = S.LM(Ff, x0, Jf, maxit=meta["maxit"], gradtol=meta["gradtol"], sparse=meta.get("sparse", False)).solve()
     k = int(info["nfev"])
+    if not np.all(np.isfinite(np.asarray(x, dtype=float))):
+        # float-only failure mode (not expressible in the exact-arithmetic model): once f - ftemp rounds to 0 the step is accepted with
+        # ratio = 0 and nu is doubled every iteration; after ~1000 iterations nu overflows to inf, the solve returns nan, the nan step is
+        # accepted (nan < 0 is False) and the loop ends because nan > gradtol is False
+        return Case(expr="false", meta=meta, cell="lm/converged/%s" % meta["cell"], kind="DECISION",
+                    impl_fail="LM returned a non-finite point %s after %d iterations (stagnation: |J^T r|/|g0| stays just above gradtol, nu overflows)" % (fl(x), k),
+                    signature=SIG["lm_nan"])
     g0, g = lm_grad_norm(Ff, Jf, x0), lm_grad_norm(Ff, Jf, x)
     fired = k < meta["maxit"]
     fail = None
@@ -947,7 +955,8 @@ W_PCGLS_SHIFT = {"op": "pcgls_solve", "A": [[1, 0], [0, 2], [1, 1]], "b": [1, 2,
                  "pinv": "explicit", "form": "dense", "shape": "over", "start": "zero", "shift": 1.0, "tol": 1e-6, "maxit": 100}
 W_MAXIMIZE_INFO = {"op": "maximize", "method": None, "with_grad": True, "obj": "quad1", "c": [1, 0, 1], "x0": [3], "cuqiarray": False, "probes": [[0], [2]]}
 W_MIN_NOJAC = {"op": "minimize", "method": "Nelder-Mead", "with_grad": False, "obj": "quad1", "c": [1, 0, 1], "x0": [3], "cuqiarray": False, "probes": [[0], [2]]}
-WITNESSES = {SIG["pcgls_shift"]: W_PCGLS_SHIFT, SIG["maximize_info"]: W_MAXIMIZE_INFO, SIG["minimize_nojac"]: W_MIN_NOJAC}
+W_LM_NAN = {"op": "lm_conv2", "p": {"a": 4, "b": -2, "c": 1, "d": 1}, "x0": [0, 0], "maxit": 10000, "gradtol": 1e-08, "cell": "n2"}
+WITNESSES = {SIG["pcgls_shift"]: W_PCGLS_SHIFT, SIG["maximize_info"]: W_MAXIMIZE_INFO, SIG["minimize_nojac"]: W_MIN_NOJAC, SIG["lm_nan"]: W_LM_NAN}
 
 
 def run(ctx):
@@ -955,7 +964,7 @@ def run(ctx):
     cases = []
     with warnings.catch_warnings():
         warnings.simplefilter("ignore")
-        for me in [W_PCGLS_SHIFT, W_MAXIMIZE_INFO, W_MIN_NOJAC] + metas(ctx):
+        for me in [W_PCGLS_SHIFT, W_MAXIMIZE_INFO, W_MIN_NOJAC, W_LM_NAN] + metas(ctx):
             cases.append(build_case(me, _r.Random(int(hashlib.sha1(json.dumps(me, sort_keys=True, default=str).encode()).hexdigest()[:8], 16))))
     return Result(cases=cases, rule=RULE,
                   assumptions=["float rounding is not modelled: CGLS/FISTA/LM iterates are compared with the model's exact rationals within 1e-9, PCGLS iterates within 1e-6 "
@@ -995,7 +1004,7 @@ def classify(meta, detail):
     if op in ("prox_l1", "box", "nonneg"):
         return SIG[op]
     if op.startswith("lm"):
-        return SIG["lm"]
+        return SIG["lm_nan"] if "non-finite" in d else SIG["lm"]
     if op in ("minimize", "maximize"):
         if "KeyError('jac')" in d:
             return SIG["minimize_nojac"]
